@@ -80,7 +80,7 @@ def run(chk):
     chk.mc('MC_Dyn', 'MC_Dyn_protected.cfg', extra=['-dump', 'dot', dot], timeout=5000)
     from harness.drivers import dyn as _dyn
     gt = [dict(shard=chk.shard('dg_c09_%d' % i), dot=dot, part=i, nparts=tlcrun.NCPU,
-               limit=chk.th(3000, 14000), seed=chk.seed, first_tid=9000000 + i * 10000)
+               limit=chk.th(3000, 8000), seed=chk.seed, first_tid=9000000 + i * 10000)
           for i in range(tlcrun.NCPU)]
     sh_graph, gres = chk.generate(_dyn.dyn_graph_task, gt)
     os.remove(dot)
@@ -99,11 +99,11 @@ def run(chk):
     tmp = os.path.join(chk.dir, 'tmp')
     tasks = []
     tid = 2000000
-    nseeds = chk.th(2, 40)
+    nseeds = chk.th(2, 6)
     i = 0
     for kind in ('autoref', 'bdd'):
         for nvars, nheld in ((4, 4), (5, 5), (3, 3), (6, 6)):
-            for part in range(chk.th(1, 8)):
+            for part in range(chk.th(1, 3)):
                 seeds = [chk.seed * 1000 + 17 * i + s for s in range(nseeds)]
                 tasks.append(dict(shard=chk.shard('dyn_%d' % i), tid0=tid,
                                   kind=kind, seeds=seeds, nvars=nvars,
